@@ -108,7 +108,9 @@ def graph_case(draw, max_tasks=8, min_tasks=1, kinds=("cmd", "exp", "group", "co
             elif kind == "signal":
                 oc[str(i)] = {"signal": [1, 2, 9, 15, 11][i % 5] + 0, "sigidx": i}
             else:
-                oc[str(i)] = {"launch": draw(st.sampled_from(["eagain", "enoent", "nul"]))}
+                # blocked: a regular file stands where the task's output directory has to be created (run_command only:
+                # the directory name of an experiment is not known in advance)
+                oc[str(i)] = {"launch": draw(st.sampled_from(["eagain", "enoent", "nul"] + (["blocked"] if tasks[i]["kind"] == "cmd" else [])))}
     for i, o in oc.items():
         if o.get("launch") == "nul":
             tasks[int(i)]["run"] = "tr '\x00' x < in.txt"
@@ -120,6 +122,8 @@ def graph_case(draw, max_tasks=8, min_tasks=1, kinds=("cmd", "exp", "group", "co
                 cands = [d[0] for d in t["deps"] if tasks[d[0]]["kind"] in PROC_KINDS and "rmout" not in oc.get(str(d[0]), {})]
                 if cands:
                     oc[str(i)] = {"conflict": draw(st.sampled_from(cands))}
+            elif t["kind"] == "combine" and draw(st.sampled_from(range(8))) == 0:
+                oc[str(i)] = {"launch": "blocked"}    # the combine's own output directory cannot be created
     case["outcomes"] = oc
     tlen = draw(st.sampled_from([0, 4, 10, 20, 40, tape_max]))
     tlen = min(tlen, tape_max)
@@ -342,6 +346,12 @@ def kernel_spec(case, clock=1000.0):
 def plant_conflicts(root, case):
     ids = projgen.idents(case)
     for i, o in case.get("outcomes", {}).items():
+        if o.get("launch") == "blocked":
+            d = projgen.version_dir(root, ids[int(i)])
+            os.makedirs(os.path.dirname(d), exist_ok=True)
+            if not os.path.lexists(d):
+                with open(d, "w") as f:
+                    f.write("a file where the task's output directory belongs")
         if "conflict" in o:
             d = projgen.version_dir(root, ids[int(i)])
             os.makedirs(d, exist_ok=True)
@@ -444,6 +454,11 @@ class Obs:
             for lf in self.launchfails.get(task, []):
                 if self.events[lf].get("pid") is None:
                     out.append((lf, lf, -1))
+            if not out and i is not None and self.case.get("outcomes", {}).get(str(i), {}).get("launch") == "blocked":
+                # the output directory could not be created: the launch attempt ends before anything reaches the kernel;
+                # Conductor's "failed" line marks it
+                for m in self.lines("failed", task):
+                    out.append((m[0], m[0], -1))
         else:
             runs = self.lines("running", task)
             ends = sorted(self.lines("ok", task) + self.lines("failed", task))
